@@ -779,9 +779,16 @@ func (g *FuncGen) applyContract(ct *FuncContract, sig *types.Signature, args []V
 	if !ct.AssignsSet {
 		// a contract without an assigns clause allows the callee to write anything - including what `option
 		// stable` protects from callees that have no contract at all
-		g.ignoreStable = true
-		g.havocAll("call " + short)
-		g.ignoreStable = false
+		// (`option stable-contracted` in the caller extends the stable assumption to these callees as well: their
+		// contracts say nothing about frames either way; the assumption is listed in the evidence)
+		if g.contract != nil && g.contract.Options["stable-contracted"] == "true" {
+			g.c.note("assumed: callees whose contract has no assigns clause do not write the heap classes named by option stable (option stable-contracted)")
+			g.havocAll("call " + short)
+		} else {
+			g.ignoreStable = true
+			g.havocAll("call " + short)
+			g.ignoreStable = false
+		}
 		// ... and any ghost variable
 		var gnames []string
 		for gn := range g.prog.Ghosts {
@@ -1493,6 +1500,10 @@ func (g *FuncGen) callWrites(cc *ssa.CallCommon) ([]string, bool) {
 	}
 	if ct != nil && !ct.AssignsSet {
 		// contract without an assigns clause: may write anything, also what `option stable` protects
+		// (unless the caller opted into `option stable-contracted`)
+		if g.contract != nil && g.contract.Options["stable-contracted"] == "true" {
+			return nil, true
+		}
 		return append([]string{}, c.classList...), true
 	}
 	if ct == nil {
